@@ -1,5 +1,11 @@
-from . import arrayhist
+from . import arrayhist, raggedhist
+from ..common import Run
 
 
 def run(tier, seed):
-    return arrayhist.run_check('C11', tier, seed, 'data+meta')
+    run = Run('C11', tier, seed, 'model_checking')
+    for family in ('data', 'meta'):
+        arrayhist.run_family(run, 'C11', tier, seed, family)
+    run.cov['rule'] = ('Array: every mutating macro-edge leaving a mode-r state of the TLC graph of spec/Array.tla is '
+                       'executed with a recursive byte snapshot before/after; paths r-call, SetMode(r+), same call.')
+    return raggedhist.run_check('C11', tier, seed, 'data', run=run)
